@@ -321,7 +321,7 @@ def register_histogram_make_bins(ix):
     NEW = ["self._hist is not old(self._hist)",          # `a new structure ... earlier yielded histograms stay intact`
            "self._hist.edges == old(self._hist.edges)", "self._hist.n_out_of_range == 0", "self._hist.dim == 1",
            "self._cur_context == emptydict()", "self._hist.bins == made_bins()"]
-    ix.add(Contract(HI, "Histogram.reset", qualkey="Histogram_mb.reset", name="Histogram.reset[make_bins]", props=["C09"],
+    ix.add(Contract(HI, "Histogram.reset", qualkey="Histogram_mb.reset", name="Histogram.reset[make_bins]", props=["C09", "C06"],
                     params={"self": "Self[Histogram_mb]"}, ensures=NEW, modifies=["self._hist", "self._cur_context"]))
     BAD_EDGES = "len(edges) <= 1 or not " + C06.incr("edges")
     IMOD = ["self._hist", "self._cur_context", "self._initial_bins", "self._initial_value", "self._make_bins"]
